@@ -123,10 +123,32 @@ static Csr<double> case_matrix(Rng &r, int nmin, int nmax, std::string &fam, J &
 static double step_count(const Cfg &c, size_t L) { double s = 0, w = 1; for (size_t l = 0; l < L; ++l) { s += w; w *= c.ncycle; } return c.pre_cycles * (c.npre + c.npost + 2.0) * s; }
 static double action_bound(const Cfg &c, size_t L, double normA, double normB) { return 64 * step_count(c, L) * U * normB * (1 + normA * normB); }
 
-static bool check_finite(Case &c, const LD &B, const Cfg &cfg) {
+static void dump_levels(AMG &a) {      // --dump=1: where do non-finite numbers enter the hierarchy
+    size_t li = 0; for (auto &l : amgcl::verif::access::levels(a)) { auto bad = [](const Mat &M) { size_t k = 0; for (size_t i = 0; i < M.nnz; ++i) for (int r = 0; r < BS; ++r) for (int q = 0; q < BS; ++q) if (!std::isfinite(bget(M.val[i], r, q))) ++k; return k; };
+        auto zero_cols = [](const Mat &M) { std::vector<double> cm(M.ncols, 0.0); for (size_t i = 0; i < M.nrows; ++i) for (auto j = M.ptr[i]; j < M.ptr[i + 1]; ++j) for (int r = 0; r < BS; ++r) for (int q = 0; q < BS; ++q) cm[M.col[j]] = std::max(cm[M.col[j]], std::fabs(bget(M.val[j], r, q))); size_t k = 0; for (double v : cm) if (v < 1e-12) ++k; return k; };
+        fprintf(stderr, "level %zu rows %zu: A nonfinite %zu, P nonfinite %zu zero-cols %zu, R nonfinite %zu, solve %d relax %d\n", li++, l.m_rows * BS, l.A ? bad(*l.A) : 0, l.P ? bad(*l.P) : 0, l.P ? zero_cols(*l.P) : 0, l.R ? bad(*l.R) : 0, (int)(bool)l.solve, (int)(bool)l.relax); }
+}
+// Known weakness of the energy-minimising coarsening (reported; listed by the lead as a known finding): the column damping
+// omega_j can cancel a tentative prolongation column completely when the aggregate is a whole connected component of the
+// FILTERED matrix (strongly anisotropic grids on coarse levels: pairs coupled only to each other) -- P gets zero columns, the
+// Galerkin matrix a zero row/column; the direct solver throws or the smoothed level yields NaN.  Recognised from the level list
+// so that it carries one specific key.
+static bool emin_vanishing_column(AMG &a) {
+    for (auto &l : amgcl::verif::access::levels(a)) { if (!l.P) continue; const Mat &P = *l.P; std::vector<double> cm(P.ncols, 0.0); double gm = 0;
+        for (size_t i = 0; i < P.nrows; ++i) for (auto j = P.ptr[i]; j < P.ptr[i + 1]; ++j) for (int r = 0; r < BS; ++r) for (int q = 0; q < BS; ++q) { double v = std::fabs(bget(P.val[j], r, q)); if (!(v <= cm[P.col[j]])) cm[P.col[j]] = v; if (v > gm) gm = v; }
+        for (double v : cm) if (v <= 1e-10 * gm) return true; }
+    return false;
+}
+static const char *EMIN_KEY = "coarse-matrix-singular:smoothed_aggr_emin:vanishing-prolongation-column";
+static bool check_finite(Case &c, const LD &B, const Cfg &cfg, AMG &a) {
     bool ok = vf::all_finite(B);
-    c.check(ok, "apply:nonfinite-action:" + cfg.coars, "the preconditioner returns NaN/Inf for a unit right-hand side on a valid SPD M-matrix");
+    c.check(ok, !ok && cfg.coars == "smoothed_aggr_emin" && emin_vanishing_column(a) ? std::string(EMIN_KEY) : "apply:nonfinite-action:" + cfg.coars, "the preconditioner returns NaN/Inf for a unit right-hand side on a valid SPD M-matrix");
     return ok;
+}
+// key of an exception thrown while building / applying: the emin weakness above is recognised by rebuilding without the direct coarse solver
+static std::string exception_key(const Cfg &cfg, const Csr<double> &A) {
+    if (cfg.coars == "smoothed_aggr_emin") { try { ptree p = cfg.p; p.put("direct_coarse", false); std::shared_ptr<AMG> a = build(A, p); if (emin_vanishing_column(*a)) return EMIN_KEY; } catch (...) {} }
+    return "exception:" + cfg.coars + "/" + cfg.relax;
 }
 
 //---------------------------------------------------------------------------
@@ -152,7 +174,7 @@ static LD ref_cycle(const std::vector<Lev> &L, size_t l, const Cfg &c) {
 }
 
 static void sub_cycle() {
-    long cells = NCOARS * NRELAX, nmat = vf::tier(BS == 1 ? 3 : 2, BS == 1 ? 14 : 5), N = nmat * cells, stride = vf::opt_int("stride", 1);
+    long cells = NCOARS * NRELAX, nmat = vf::tier(BS == 1 ? 3 : 2, BS == 1 ? 40 : 10), N = nmat * cells, stride = vf::opt_int("stride", 1);
     for (long idx = 0; idx < N; ++idx) {
         if (!vf::selected("cycle", idx) || idx % stride) continue;
         Rng r(vf::case_seed("cycle", idx)); int ci = (int)(idx % NCOARS), ri = (int)((idx / NCOARS) % NRELAX); long rep = idx / cells;
@@ -162,7 +184,7 @@ static void sub_cycle() {
         try {
             std::shared_ptr<AMG> amg = build(A, cfg.p); AMG &a = *amg; size_t nl = nlevels(a);
             LD B0 = extractB(a, n);
-            if (!check_finite(c, B0, cfg)) continue;
+            if (!check_finite(c, B0, cfg, a)) { if (vf::opt_int("dump", 0)) dump_levels(a); continue; }
             double nA = vf::norm_inf(A), nB = (double)vf::norm_inf(B0), bound = action_bound(cfg, nl, nA, nB);
             // --- 1. history independence: 200 applications / cycles on random, huge, tiny, sparse vectors, then B again
             { std::vector<double> f(n), x(n);
@@ -214,7 +236,7 @@ static void sub_cycle() {
                   if (L.size() >= 2) c.nontrivial(); } }
             vf::obs_add("cells_cycle", cfg.coars + "/" + cfg.relax); vf::obs_max("max_levels_seen", (double)nl);
             vf::sample("cycle", J().s("family", fam).n("n", n).s("coarsening", cfg.coars).s("relax", cfg.relax).n("npre", cfg.npre).n("npost", cfg.npost).n("ncycle", cfg.ncycle).n("pre_cycles", cfg.pre_cycles).s("level_sizes", sizes(a)).bl("direct_coarse", cfg.direct));
-        } catch (const std::exception &e) { c.fail("exception:" + cfg.coars + "/" + cfg.relax, e.what()); }
+        } catch (const std::exception &e) { c.fail(exception_key(cfg, A), e.what()); }
     }
 }
 
@@ -223,7 +245,7 @@ static void sub_cycle() {
 //---------------------------------------------------------------------------
 #if VF_BS == 1
 static void sub_spd() {
-    long nmat = vf::tier(3, 20), N = nmat * 56, stride = vf::opt_int("stride", 1);
+    long nmat = vf::tier(3, 60), N = nmat * 56, stride = vf::opt_int("stride", 1);
     for (long idx = 0; idx < N; ++idx) {
         if (!vf::selected("spd", idx) || idx % stride) continue;
         Rng r(vf::case_seed("spd", idx)); int ci = (int)(idx % 4), ri = (int)((idx / 4) % 7), ncyc = 1 + (int)((idx / 28) % 2); long rep = idx / 56;
@@ -234,7 +256,7 @@ static void sub_spd() {
         Case c("spd", idx, J().o("matrix", md).o("cfg", cfg.desc));
         try {
             std::shared_ptr<AMG> amg = build(A, cfg.p); AMG &a = *amg; size_t nl = nlevels(a);
-            LD B = extractB(a, n); if (!check_finite(c, B, cfg)) continue;
+            LD B = extractB(a, n); if (!check_finite(c, B, cfg, a)) { if (vf::opt_int("dump", 0)) dump_levels(a); continue; }
             double nA = vf::norm_inf(A), nB = (double)vf::norm_inf(B), mB = (double)vf::maxabs(B);
             LD Bt = B.transpose(); LD As = B - Bt; double asym = (double)vf::maxabs(As);
             c.check_le(asym, 2 * action_bound(cfg, nl, nA, nB), "spd:not-symmetric:" + cfg.relax, "max|B - B^T| exceeds the rounding bound: the cycle is not a symmetric operator");
@@ -269,7 +291,7 @@ static void sub_spd() {
             if (nl >= 2) c.nontrivial();
             vf::obs_add("cells_spd", cfg.coars + "/" + cfg.relax + (ncyc == 1 ? "/V" : "/W"));
             vf::sample("spd", J().s("family", fam).n("n", n).s("coarsening", cfg.coars).s("relax", cfg.relax).n("npre_npost", cfg.npre).n("ncycle", cfg.ncycle).s("level_sizes", sizes(a)).n("asymmetry_rel", asym / mB).n("rho", rho));
-        } catch (const std::exception &e) { c.fail("exception:" + cfg.coars + "/" + cfg.relax, e.what()); }
+        } catch (const std::exception &e) { c.fail(exception_key(cfg, A), e.what()); }
     }
 }
 
@@ -278,7 +300,7 @@ static void sub_spd() {
 // scaling: monitor 5
 //---------------------------------------------------------------------------
 static void sub_scaling() {
-    long cells = NCOARS * NRELAX_SCALING, nmat = vf::tier(BS == 1 ? 2 : 1, BS == 1 ? 8 : 3), N = nmat * cells, stride = vf::opt_int("stride", 1);
+    long cells = NCOARS * NRELAX_SCALING, nmat = vf::tier(BS == 1 ? 2 : 1, BS == 1 ? 20 : 6), N = nmat * cells, stride = vf::opt_int("stride", 1);
     for (long idx = 0; idx < N; ++idx) {
         if (!vf::selected("scaling", idx) || idx % stride) continue;
         Rng r(vf::case_seed("scaling", idx)); int ci = (int)(idx % NCOARS), ri = (int)((idx / NCOARS) % NRELAX_SCALING); long rep = idx / cells;   // RELAX9[0 .. NRELAX_SCALING-1]: everything but ILUT
@@ -289,14 +311,14 @@ static void sub_scaling() {
         std::vector<int> ks = {2, -2}; ks.push_back((int)r.pick(std::vector<long>{1, -1, 3, -3, 10, -10, 9, -9, 40, -40})); ks.push_back((int)r.pick(std::vector<long>{-60, -60, -75, -120})); ks.push_back((int)r.pick(std::vector<long>{60, 77, 120}));
         Case c("scaling", idx, J().o("matrix", md).o("cfg", cfg.desc).arr("k", ks));
         try {
-            std::shared_ptr<AMG> a0 = build(A, cfg.p); LD B0 = extractB(*a0, n); if (!check_finite(c, B0, cfg)) continue;
+            std::shared_ptr<AMG> a0 = build(A, cfg.p); LD B0 = extractB(*a0, n); if (!check_finite(c, B0, cfg, *a0)) continue;
             for (int k : ks) { Csr<double> Ak = vf::scaled_pow2(A, k); std::shared_ptr<AMG> ak = build(Ak, cfg.p); LD Bk = extractB(*ak, n);
                 for (size_t j = 0; j < n; ++j) for (size_t i = 0; i < n; ++i) Bk(i, j) = std::ldexp((double)Bk(i, j), k);
                 bool same = vf::bitwise_equal(B0, Bk); double df = 0; if (!same) { LD Df = B0 - Bk; df = (double)(vf::maxabs(Df) / vf::maxabs(B0)); }
                 c.check(same, std::string("scaling:not-exact:") + (k <= -50 ? "coefficients-below-epsilon" : k >= 50 ? "coefficients-above-1/epsilon" : "moderate") + ":" + cfg.coars + "/" + cfg.relax, "B(2^k A) is not 2^-k B(A) bitwise", J().n("k", k).n("rel_diff", df).s("levels0", sizes(*a0)).s("levelsk", sizes(*ak))); }
             if (nlevels(*a0) >= 2) c.nontrivial();
             vf::obs_add("cells_scaling", cfg.coars + "/" + cfg.relax);
-        } catch (const std::exception &e) { c.fail("exception:" + cfg.coars + "/" + cfg.relax, e.what()); }
+        } catch (const std::exception &e) { c.fail(exception_key(cfg, A), e.what()); }
     }
 }
 
